@@ -4,12 +4,13 @@
 # mid-sweep (the working tree of /repo may be patched temporarily by seeded-defect runs).
 # usage: tools/sweep.sh <tier> <seed>...
 tier=$1; shift
+seeds="$*"
 here=$(cd "$(dirname "$0")/.." && pwd)
 cd "$here" || exit 2
 ./check build || exit 2
 export VERIF_TMP="$here/target/tmp"
 rc=0
-for seed in "$@"; do
+for seed in $seeds; do
   for job in "std c04-pipeline" "std c05-budget" "std c16-ingest" "std c18-consumer" "std c18-mphf-serial" "std c20-serde" "std c20-export" "std c19-large" "shuttle c19-finish" "shuttle c18-mphf-par" "shuttle c04-recompress-sched"; do
     set -- $job
     bin="$here/target/$1/release/sim-$1"
@@ -19,7 +20,7 @@ for seed in "$@"; do
   done
 done
 # debug-assertions leg of engine S (reduced counts)
-for seed in "$@"; do
+for seed in $seeds; do
   for job in "c04-pipeline 30000 1000000" "c05-budget 15000 400000" "c16-ingest 50000 2000000" "c18-consumer 100000 4000000" "c18-mphf-serial 15000 400000" "c20-serde 50000 2000000" "c20-export 50000 2000000"; do
     set -- $job
     n=$2; [ "$tier" = thorough ] && n=$3
